@@ -118,6 +118,13 @@ def caseLine (op : String) (t : List String) (ptoks : List String) : String :=
           let path0 := tg.path
           let phys0 := pathJoin basedir path0
           -- path-info found by the filesystem walk: last K bytes
+          -- (everything from the K-th '/' from the end, the leading '/' excluded)
+          let slashPos : List Nat :=
+            ((List.range path0.length).filter fun i => i > 0 && path0.getD i 0 = slash).reverse
+          let pinfoPos : Option Nat := if pinfoK = 0 then none else slashPos[pinfoK - 1]?
+          let pinfoK : Nat := match pinfoPos with
+            | some i => path0.length - i
+            | none => 0
           let (path1, pinfo1, phys1) : Bytes × Bytes × Bytes :=
             if 0 < pinfoK ∧ pinfoK < path0.length then
               (path0.take (path0.length - pinfoK), path0.drop (path0.length - pinfoK),
